@@ -149,7 +149,7 @@ def m3(ctx):
     for c in v:
         ctx.check(strip_role(b.role_of_operand(c.args[1])) == ("param", "nn"), "variants-of-the-enode", "variants are those of the e-graph node nn",
                   "variants are enumerated for %s" % role_str(b.role_of_operand(c.args[1])), where_of(b, c.bb))
-    ext = [c for c in b.calls if c.callee and c.callee.name == "extend" and strip_role(b.role_of_operand(c.args[0])) == ("param", "out")]
+    ext = C.result_sinks(b, "out")
     ctx.floor("result extension sites in ematch_node", len(ext), 1)
     for c in ext:
         C.check_only_allowed_skips(ctx, b, c.bb, [
